@@ -139,13 +139,14 @@ JOIN_SEQ = {
     ("join:answered", "done"): "JoinFail",
 }
 LEAVE_SEQ = {
+    ("leave:attempt", "ns:enter"): "LeaveRead",        # (handled before the generic ns rule)
     ("leave:lock2", "leave:locked"): "LeaveSecond",
     ("leave:lock2", "leave:attempt"): "LeaveSecond",
     ("leave:lock2", "done"): "LeaveSecond",
-    ("leave:attempt", "leave:lock2"): "LeaveFirst",
-    ("leave:attempt", "leave:attempt"): "LeaveFirst",
-    ("leave:attempt", "leave:advisory"): "LeaveFirst",
-    ("leave:attempt", "done"): "LeaveFirst",
+    ("leave:attempt", "leave:lock2"): "LeaveReadFirst",
+    ("leave:attempt", "leave:attempt"): "LeaveReadFirst",
+    ("leave:attempt", "leave:advisory"): "LeaveReadFirst",
+    ("leave:attempt", "done"): "LeaveReadFirst",
     ("leave:locked", "leave:advisory"): "LeaveTransfer",
     ("leave:advisory", "leave:left"): "LeaveAdvisory",
     ("leave:left", "leave:release"): "LeaveLeft",
@@ -178,6 +179,7 @@ class Translator:
         self.opargs = {}
         self.op_entry_dead = {}
         self.pgate = {}
+        self.read_done = {}
         self.acked = []       # acknowledged client operations of this scenario, in order
         self.lines.append({"act": "Reset", "sid": self.sid, "lay": {"npos": self.nrank, "kpos": self.krank}})
         self.meta.append((self.sid, -1, "begin " + ev.get("name", "")))
@@ -227,11 +229,23 @@ class Translator:
         frm, _ = _gate(ev["from"]) if do != "start" else ("", None)
         # sub-gates inside nodeState.Transition (ns:enter): the operation is parked before the transition it is about to make; nothing
         # has changed yet.  The protocol action is labelled when the operation reaches its next protocol gate.
-        if do != "start" and frm.startswith("ns:"):
+        if self.opdone.get(op):
+            return self.add(ev, {"act": "Stutter"})   # stepping a finished op
+        sub = do != "start" and frm.startswith("ns:")      # resumed from a sub-gate
+        if sub:
             frm = self.pgate.get(op, "")
         if to.startswith("ns:"):
+            # parked before a lifecycle transition.  On the leave path the first such park after leave:attempt comes after the
+            # leaver has read its predecessor / successor pointers: that is the specification's LeaveRead step.
+            if kind == "leave" and frm == "leave:attempt" and not self.read_done.get(op):
+                self.read_done[op] = True
+                return self.add(ev, {"act": "LeaveRead", "n": self.opnode.get(op, 0)})
             return self.add(ev, {"act": "Stutter"})
-        prev_pgate = self.pgate.get(op, "")
+        if kind == "leave" and frm == "leave:attempt" and self.read_done.get(op):
+            # the pointers were read in an earlier segment: this one only takes the first lock (or is refused)
+            self.read_done[op] = False
+            self.pgate[op] = to
+            return self.add(ev, {"act": "LeaveFirst", "n": self.opnode.get(op, 0)})
         self.pgate[op] = to
         if to == "blocked":
             self.issues.append("operation %s blocked at step %s of scenario %s" % (op, ev.get("i"), self.sid))
@@ -379,7 +393,7 @@ def validate(ck, tr, fixpred=False, fixleave=False, fixwrap=False, timeout=900):
 JPC_GATE = {"req": "join:attempt", "atx": "rtj:lock", "granted": "join:answered", "failing": "join:answered",
             "installed": "join:installed", "stabilized": "start:stabilized", "adv": "join:advisory", "act": "join:activate",
             "rel": "join:release", "done": "done", "failed": "done"}
-LPC_GATE = {"try": "leave:attempt", "lock2": "leave:lock2", "locked": "leave:locked", "adv": "leave:advisory",
+LPC_GATE = {"try": "leave:attempt", "read": "ns:enter", "lock2": "leave:lock2", "locked": "leave:locked", "adv": "leave:advisory",
             "left": "leave:left", "rel": "leave:release", "done": "done", "failed": "done"}
 
 
@@ -484,7 +498,7 @@ def cex_to_scenario(states, name, finish=True, scale_bits=None, lookups_at_end=F
                 for pos in range(1 << scale_bits):
                     n += 1
                     steps.append({"do": "start", "op": "lk%d" % n, "kind": "lookup", "at": nm(i + 1), "key": pos * (1 << (48 - scale_bits)) + 1})
-    return {"name": name, "layout": lay, "variant": 0, "gates": GATES_MEMBERSHIP, "steps": steps}
+    return {"name": name, "layout": lay, "variant": 0, "gates": GATES_MEMBERSHIP + ["ns:enter"], "steps": steps}
 
 
 # ----------------------------------------------------------------------------- engine shared by C03-C06, C08
@@ -521,18 +535,21 @@ GOAL_INSTANCES = [
     dict(init="{1, 2, 4}", joiners="{3}", leavers="{4}"),       # the leaver is the highest node (its successor wraps around) and the join arrives at the leaver
     dict(init="{1, 2, 3, 4}", joiners="{}", leavers="{2, 3}"),  # leaves of adjacent nodes
     dict(init="{1, 2, 3, 4}", joiners="{}", leavers="{3, 4}"),  # adjacent leaves including the wrap-around node
+    dict(init="{1, 2, 3}", joiners="{4}", leavers="{3}"),       # the highest member leaves while a node with an even higher id joins behind it
 ]
 GOAL_AT = {"join-refused-busy": 0, "join-refused-pred-unsettled": 0, "join-granted-with-keys": 1, "leave1-succfirst-granted": 1,
            "leave1-succfirst-refused-busy": 3, "leave1-succfirst-refused-not-predecessor": 3, "leave1-selffirst-granted": 0,
            "leave1-selffirst-refused-busy": 2, "leave2-succfirst-granted": 1, "leave2-succfirst-refused-self-busy": 1,
            "leave2-selffirst-granted": 0, "leave2-selffirst-refused-succ-busy": 2, "leave2-selffirst-refused-not-predecessor": 0,
-           "leave-transfer-with-keys": 0, "checkpred-cleared": 0, "leave-no-neighbour": 2}     # measured: first instance that reaches the goal
+           "leave-transfer-with-keys": 0, "checkpred-cleared": 0, "leave-no-neighbour": 2,
+           "leave1-succfirst-refused-not-predecessor-with-keys-stale-read": 4, "leave2-selffirst-refused-not-predecessor-with-keys-stale-read": 0}     # measured: first instance that reaches the goal
 GOALS = ["join-refused-busy", "join-refused-pred-unsettled", "join-refused-wrong-successor", "join-granted-with-keys",
          "leave1-succfirst-granted", "leave1-succfirst-refused-busy", "leave1-succfirst-refused-not-predecessor",
          "leave1-selffirst-granted", "leave1-selffirst-refused-busy",
          "leave2-succfirst-granted", "leave2-succfirst-refused-self-busy",
          "leave2-selffirst-granted", "leave2-selffirst-refused-succ-busy", "leave2-selffirst-refused-not-predecessor",
-         "leave-transfer-with-keys", "checkpred-cleared", "leave-no-neighbour"]
+         "leave-transfer-with-keys", "checkpred-cleared", "leave-no-neighbour",
+         "leave1-succfirst-refused-not-predecessor-with-keys-stale-read", "leave2-selffirst-refused-not-predecessor-with-keys-stale-read"]
 
 
 def mc_cfg(fixpred, fixleave, fixwrap=False, lay="Lay4", init="{1, 2, 4}", joiners="{3}", leavers="{2}", maxops=2, invs=ALL_INVS,
